@@ -26,6 +26,8 @@ ASSUMPTIONS = [
 ]
 VALUES = [1, "1", 2, "b", None, {"list": [1]}, {"tuple": [1]}, {"list": []}]
 ATTR_NAMES = ["name", "kind", "parent.name", "root.kind", "a.b"]
+# attributes that exist without living in the instance dict: read-only node properties and a class-level default
+SEARCH_NAMES = ATTR_NAMES + ["depth", "height", "is_leaf", "colour"]
 
 
 def val(spec):
@@ -33,7 +35,11 @@ def val(spec):
     if isinstance(spec, dict):
         return list(spec["list"]) if "list" in spec else tuple(spec["tuple"])
     return spec
-NODE_CLASSES = {"AnyNode": AnyNode}
+class ColourNode(AnyNode):
+    colour = 1  # class-level default; some instances override it
+
+
+NODE_CLASSES = {"AnyNode": AnyNode, "ColourNode": ColourNode}
 
 
 def _register_classes():
@@ -52,7 +58,7 @@ def build(case):
     tree = []
     for idx, parent in enumerate(parents):
         attrs = {}
-        for key in ATTR_NAMES:
+        for key in ATTR_NAMES + ["colour"]:
             spec = case["attrs"][idx].get(key, MISSING)
             if spec != MISSING:
                 attrs[key] = val(spec)
@@ -168,10 +174,12 @@ def _once(case, acc, tree, labels):
     lacking = 0
     exp_attr = []
     for node in region:
-        have = vars(node).get(name, MISSING)
-        if name not in vars(node):
+        try:
+            have = getattr(node, name)  # "the attribute exists" - wherever it comes from (instance, class, property)
+        except AttributeError:
             lacking += 1
-        elif have == value:
+            continue
+        if have == value:
             exp_attr.append(node)
     ca = len(exp_attr)
     abounds = [None, 0, ca - 1, ca, ca + 1]
@@ -224,7 +232,7 @@ ATTR_VALUE = st.sampled_from(VALUES + [MISSING, MISSING])
 def random_cases(draw, max_nodes=20):
     shape = draw(strategies.tree_shapes(max_nodes=max_nodes, min_nodes=1))
     size = shapes.shape_size(forest.to_tuple(shape))
-    attrs = [{"name": draw(ATTR_VALUE), "kind": draw(ATTR_VALUE), "parent.name": draw(st.one_of(st.just(MISSING), st.just(MISSING), ATTR_VALUE)), "a.b": draw(st.one_of(st.just(MISSING), ATTR_VALUE))} for _ in range(size)]
+    attrs = [{"name": draw(ATTR_VALUE), "kind": draw(ATTR_VALUE), "parent.name": draw(st.one_of(st.just(MISSING), st.just(MISSING), ATTR_VALUE)), "a.b": draw(st.one_of(st.just(MISSING), ATTR_VALUE)), "colour": draw(st.sampled_from([MISSING, MISSING, 2]))} for _ in range(size)]
     return {
         "shape": shape,
         "attrs": attrs,
@@ -232,8 +240,13 @@ def random_cases(draw, max_nodes=20):
         "stop": draw(strategies.subsets_of(size, max_size=2)),
         "hide": draw(strategies.subsets_of(size, max_size=size)),
         "maxlevel": draw(st.one_of(st.none(), st.none(), st.integers(0, 5))),
-        "by": {"name": draw(st.sampled_from(ATTR_NAMES)), "value": draw(st.sampled_from(VALUES))},
-        "cls": draw(st.sampled_from(["AnyNode", "AnyNode", "LenAnyNode", "EqAnyNode"])),
+        "by": draw(st.one_of(
+            st.fixed_dictionaries({"name": st.sampled_from(ATTR_NAMES), "value": st.sampled_from(VALUES)}),
+            st.fixed_dictionaries({"name": st.sampled_from(["depth", "height"]), "value": st.integers(0, 3)}),
+            st.fixed_dictionaries({"name": st.just("is_leaf"), "value": st.booleans()}),
+            st.fixed_dictionaries({"name": st.just("colour"), "value": st.sampled_from([1, 2, "1"])}),
+        )),
+        "cls": draw(st.sampled_from(["AnyNode", "AnyNode", "LenAnyNode", "EqAnyNode", "ColourNode", "ColourNode"])),
         "mutations": draw(st.lists(st.one_of(strategies.tree_mutation_op(), st.tuples(st.just("rename"), st.integers(0, 30), st.sampled_from([1, "1", 2, "b", None]), st.sampled_from(["name", "kind"])).map(list)), max_size=3)),
     }
 
@@ -258,7 +271,7 @@ def _enum_cases(max_nodes, index, count):
                             "stop": [size - 1] if k % 3 == 0 else [],
                             "hide": [0] if k % 5 == 0 else [],
                             "maxlevel": maxlevel,
-                            "by": {"name": ("name", "kind", "parent.name", "a.b")[k % 4], "value": value},
+                            "by": {"name": ("name", "kind", "parent.name", "a.b", "depth", "is_leaf")[k % 6], "value": value if k % 6 < 4 else (k // 6) % 2},
                         }
 
 
